@@ -5,6 +5,7 @@ import Driver.Stack
 import Driver.WQ
 import Driver.Pub
 import Driver.Stress
+import Driver.Maps
 
 def main (args : List String) : IO UInt32 := do
   match args with
@@ -15,6 +16,9 @@ def main (args : List String) : IO UInt32 := do
   | ["stackconc"] => Driver.Stack.main; return 0
   | ["wq"] => Driver.WQ.main; return 0
   | ["pub"] => Driver.Pub.main; return 0
+  | ["maps"] => Driver.Maps.main; return 0
+  | ["mapsconc"] => Driver.Maps.main; return 0
   | ["wqstress"] => Driver.Stress.main Driver.Stress.wq; return 0
+  | ["cacheconc"] => Driver.Stress.main Driver.Stress.cache; return 0
   | ["pubstress"] => Driver.Pub.stressMain; return 0
   | _ => IO.eprintln "usage: tvdriver <component> < trace"; return 2
